@@ -122,7 +122,7 @@ func (cr *cursor) ruleLB25(breakOp *breakOpportunity, triggerNumSequence bool) {
 	}
 	if (br0 == ucd.BreakPR || br0 == ucd.BreakPO) &&
 		(br1 == ucd.BreakOP || br1 == ucd.BreakHY) &&
-		cr.nextLine == ucd.BreakNU {
+		cr.nextLineAfterMarks == ucd.BreakNU {
 		*breakOp = breakProhibited
 	}
 	// ( OP | HY ) × NU
@@ -417,6 +417,20 @@ func (cr *cursor) startIteration(text []rune, i int) {
 	// prevPrevLine and prevLine are handled in endIteration
 	cr.line = cr.nextLine // avoid calling LookupLineBreakClass twice
 	cr.nextLine = ucd.LookupLineBreakClass(cr.next)
+	// rule LB9 : the look-ahead of rule LB25 ignores combining marks and ZWJ
+	cr.nextLineAfterMarks = cr.nextLine
+	for j := i + 1; j < len(text); j++ {
+		cl := ucd.LookupLineBreakClass(text[j])
+		if cl == ucd.BreakSA {
+			if gc := ucd.LookupType(text[j]); gc == unicode.Mn || gc == unicode.Mc {
+				cl = ucd.BreakCM
+			}
+		}
+		cr.nextLineAfterMarks = cl
+		if cl != ucd.BreakCM && cl != ucd.BreakZWJ {
+			break
+		}
+	}
 }
 
 // end the current iteration, computing some of the properties
